@@ -64,6 +64,7 @@ def run(ctx):
             rule_done(ctx, M, u)
         rule_insert_arm(ctx, M)
         rule_handout(ctx, M, units)
+        rule_parent_kept(ctx, M)
         if std:
             rule_fwd(ctx, M)
             prims.check_bits(ctx, M, "C01.BITS")
@@ -381,3 +382,37 @@ def rule_done(ctx, M, u):
     elif u.family == "zip":
         with ctx.renamed({"C09.EMIT": "C01.DONE", "C01.REARM": "C01.REARM"}):
             c09.rule_emit(ctx, M, u)
+
+
+def rule_parent_kept(ctx, M):
+    """Once registered, the parent waker stays registered: `parent_waker` is written only by `new`
+    (None) and `set_waker` (Some(..) / clone_from) and is never taken, replaced or cleared elsewhere
+    - otherwise a stale or late invocation of a sub-waker hits `expect("parent_waker ...")`."""
+    n = 0
+    bad = 0
+    for b in M.F.bodies:
+        if b.kind in ("Const", "AnonConst"):
+            continue
+        bi = M.info(b)
+        owner_ok = b.name in ("new", "set_waker") and b.impl_self is not None and (M.adt_of_type(b.impl_self) or "").rsplit("::", 1)[-1] in scan.READY
+        for blk, pt, v, sp in scan.field_writes(bi):
+            path = []
+            t = pt
+            while t[0] in ("field", "index", "variant"):
+                path.append(t[2])
+                t = t[1]
+            if "parent_waker" in path:
+                n += 1
+                is_some = v[0] == "agg" and v[1] == ("Option", "Some")
+                if not owner_ok or (b.name == "set_waker" and not is_some):
+                    bad += 1
+                    ctx.fail("C01.FWD", b.def_, "the registered parent waker is overwritten / cleared outside new / set_waker(Some(..))", site=sp)
+        for s in bi.sites:
+            if s.key in (("Option", "take"), ("core::mem::take", "take"), ("core::mem::replace", "replace"), ("core::mem::swap", "swap"), ("Option", "replace"),
+                         ("Option", "insert"), ("Option", "get_or_insert_with")):
+                for a in (s.arg(0), s.arg(1)):
+                    if a is not None and a[0] == "field" and a[2] == "parent_waker":
+                        n += 1
+                        bad += 1
+                        ctx.fail("C01.FWD", b.def_, "the registered parent waker is taken out of the readiness table (%s::%s)" % s.key, site=s.where)
+    ctx.ok("C01.FWD", "<crate>", "parent_waker is written only by new / set_waker and never taken (%d write sites, %d offending)" % (n, bad))
